@@ -15,20 +15,54 @@ using namespace vh;
 enum Abs { ABS_NODE = 1000, ABS_EXPR, ABS_CLASSIC, ABS_NAME, ABS_TYPE, ABS_DIRECTIVE, ABS_STMT, ABS_DECL };
 
 // (2) a visitor that overrides every overload: accept must call exactly the leaf hook of the node's own class
+struct Hook_probe { };        // what a hook of ours throws when asked to fail
 struct Recorder : Visitor {
    std::vector<std::pair<int, const void*>> calls;
-   void visit(const Node& n) override { calls.emplace_back(ABS_NODE, &n); }
-   void visit(const Expr& n) override { calls.emplace_back(ABS_EXPR, &n); }
-   void visit(const Classic& n) override { calls.emplace_back(ABS_CLASSIC, &n); }
-   void visit(const Name& n) override { calls.emplace_back(ABS_NAME, &n); }
-   void visit(const Type& n) override { calls.emplace_back(ABS_TYPE, &n); }
-   void visit(const Directive& n) override { calls.emplace_back(ABS_DIRECTIVE, &n); }
-   void visit(const Stmt& n) override { calls.emplace_back(ABS_STMT, &n); }
-   void visit(const Decl& n) override { calls.emplace_back(ABS_DECL, &n); }
-#define VH_X(C) void visit(const ipr::C& n) override { calls.emplace_back(int(Category_code::C), static_cast<const Node*>(&n)); }
+   // what a client's visitor may legitimately do inside a hook: dispatch the same node on itself once more (a two-phase
+   // visitor), or leave by an exception (as the library's own Missing_overrider visitors do)
+   const Node* redispatch = nullptr;     // when set: the first hook reached calls redispatch->accept(*this) again
+   bool fail_once = false;               // when set: the first hook reached throws Hook_probe
+   void hit(int code, const void* p)
+   {
+      calls.emplace_back(code, p);
+      if (redispatch) { const Node* n = redispatch; redispatch = nullptr; n->accept(*this); }
+      if (fail_once) { fail_once = false; throw Hook_probe { }; }
+   }
+   void visit(const Node& n) override { hit(ABS_NODE, &n); }
+   void visit(const Expr& n) override { hit(ABS_EXPR, &n); }
+   void visit(const Classic& n) override { hit(ABS_CLASSIC, &n); }
+   void visit(const Name& n) override { hit(ABS_NAME, &n); }
+   void visit(const Type& n) override { hit(ABS_TYPE, &n); }
+   void visit(const Directive& n) override { hit(ABS_DIRECTIVE, &n); }
+   void visit(const Stmt& n) override { hit(ABS_STMT, &n); }
+   void visit(const Decl& n) override { hit(ABS_DECL, &n); }
+#define VH_X(C) void visit(const ipr::C& n) override { hit(int(Category_code::C), static_cast<const Node*>(&n)); }
    VH_LEAF_CATEGORIES(VH_X)
 #undef VH_X
 };
+
+// accept() calls the node's own hook exactly once per call - also when the call is made from inside a hook of the same visitor
+// on the same node, after a hook left by an exception, and by a new visitor living where an earlier one lived.
+static void dispatch_histories(const Node& n, Ctx& C, const std::string& cls, const char* kind)
+{
+   const int k = int(n.category);
+   auto all_own = [&](const Recorder& r, std::size_t want) {
+      if (r.calls.size() != want) return false;
+      for (auto& c : r.calls) if (c.first != k || c.second != &n) return false;
+      return true;
+   };
+   {  Recorder r; r.redispatch = &n; n.accept(r); C.count("dispatch_histories");
+      if (!all_own(r, 2)) C.viol(std::string("accept:re-dispatch-from-own-hook:") + kind, "accept() called from inside the hook accept() had just called (same visitor, same node) reached " + std::to_string(r.calls.size()) + " hook calls instead of 2 (class " + cls + ")"); }
+   {  Recorder r; r.fail_once = true; bool thrown = false;
+      try { n.accept(r); } catch (const Hook_probe&) { thrown = true; }
+      if (!thrown) C.viol(std::string("accept:exception-swallowed:") + kind, "an exception thrown by the hook did not leave accept() (class " + cls + ")");
+      n.accept(r); n.accept(r); C.count("dispatch_histories");
+      if (!all_own(r, 3)) C.viol(std::string("accept:after-a-hook-threw:") + kind, "after a hook left accept() by an exception, two further accept() calls with the same visitor on the same node brought the total to " + std::to_string(r.calls.size()) + " hook calls instead of 3 (class " + cls + ")"); }
+   for (int again = 0; again < 2; ++again) {      // a new visitor object where the previous ones lived
+      Recorder r; n.accept(r); C.count("dispatch_histories");
+      if (!all_own(r, 1)) C.viol(std::string("accept:new-visitor-in-reused-storage:") + kind, "accept() with a new visitor (built where an earlier visitor lived, whose hook had thrown) made " + std::to_string(r.calls.size()) + " hook calls (class " + cls + ")");
+   }
+}
 
 // (3) a visitor that overrides only the pure sinks (+ Classic, which records and continues with the inherited default)
 struct Defaults : Visitor {
@@ -116,7 +150,7 @@ static void body(Ctx& C)
 {
    C.rule("finite space: every leaf interface category (generated from <ipr/node-category>) x every implementation class instance "
           "reached (all-factories sweep, process-wide constants, sub-objects handed out by nodes); per instance: category code == code "
-          "of the hook accept() calls; a full recording visitor sees exactly one call, the node's own leaf hook; a visitor overriding "
+          "of the hook accept() calls; a full recording visitor sees exactly one call, the node's own leaf hook - also when accept() is called again from inside that hook, after a hook left by an exception, and by a new visitor built where an earlier one lived; a visitor overriding "
           "only the abstract sinks sees exactly the chain computed at compile time from the interface's base classes; view<J> for all "
           "leaf J yields the node for its own category only; a case = (dynamic class, category), distinct by that pair");
    C.assume("the chain expected from a default hook is derived from std::is_base_of on the interface classes: Classic->Expr, Decl, Stmt, Directive, Type, Name, Expr, else Node");
@@ -174,6 +208,8 @@ static void body(Ctx& C)
          }
          // (4)
          if (fresh || it == 0) all_views(n, C, cls);
+         // (5) dispatch histories; views once more afterwards
+         if (fresh || it == 0) { dispatch_histories(n, C, cls, cat_name(k)); if (fresh) all_views(n, C, cls); }
       }
    }
    // every leaf category must have been instantiated
@@ -189,7 +225,7 @@ static void body(Ctx& C)
    C.extra("implementation_classes", list + "]");
    int ns = 0;
    for (auto& [cls, k] : classes) { if (ns++ % 40 == 0) C.sample(J().s("dynamic_class", cls).s("category", cat_name(k)).str(), 6); }
-   C.need("view_calls"); C.need("instances_checked"); C.need("redeclarations_instantiated"); C.need("instances_in_reused_storage");
+   C.need("view_calls"); C.need("dispatch_histories"); C.need("instances_checked"); C.need("redeclarations_instantiated"); C.need("instances_in_reused_storage");
    C.exhaustive(missing.empty());
 }
 
